@@ -177,9 +177,15 @@ def _mk_root(EoReader, data, s):
 
 
 def _fork(o):
-    n = object.__new__(type(o))
-    n.__dict__.update(o.__dict__)
-    return n
+    """An independent reader (or model) in the same state: a shallow copy of the instance's own attributes,
+    wherever they live (instance dict and/or __slots__)."""
+    d = getattr(o, "__dict__", None)
+    if d is not None and not hasattr(type(o), "__slots__"):
+        n = object.__new__(type(o))
+        n.__dict__.update(d)
+        return n
+    import copy
+    return copy.copy(o)
 
 
 def _show(v):
